@@ -35,6 +35,9 @@ type Env struct {
 	worker  bool
 }
 
+// DefaultPubPass is the public passphrase new instances are created with.
+var DefaultPubPass = "verifPubPass1"
+
 // NewEnv creates a fresh wallet database directory and opens a wallet on it.
 func NewEnv(node *Node, gapLimit uint32, wrap func(mwdb.DB) mwdb.DB) (*Env, error) {
 	guard.Install()
@@ -44,7 +47,7 @@ func NewEnv(node *Node, gapLimit uint32, wrap func(mwdb.DB) mwdb.DB) (*Env, erro
 	}
 	cfg := &config.Config{Core: config.NewDefCoreConfig(), Wallet: config.NewDefWalletConfig()}
 	cfg.Wallet.Settings.AddressGapLimit = gapLimit
-	e := &Env{Node: node, Dir: dir, DBPath: filepath.Join(dir, "wallet.db"), Cfg: cfg, PubPass: "verif-pubpass", Wrap: wrap}
+	e := &Env{Node: node, Dir: dir, DBPath: filepath.Join(dir, "wallet.db"), Cfg: cfg, PubPass: DefaultPubPass, Wrap: wrap}
 	if err := e.Open(true); err != nil {
 		os.RemoveAll(dir)
 		return nil, err
